@@ -27,6 +27,12 @@ pub struct C15;
 pub enum ArgSpec {
     Int(u128),
     Range(Bound<usize>, Bound<usize>),
+    /// a range argument of a command for which MPD also documents a single position (`playlistinfo`, `delete`, `move`,
+    /// `playlistdelete`): a bare `N` denotes the one position N
+    RangeOrPos(Bound<usize>, Bound<usize>),
+    /// an OPTIONAL trailing range (`playlistinfo`, `shuffle`, `load NAME`) resp. `window` + range (`find`): when the
+    /// Rust range selects everything the argument(s) may be left out, which denotes the same set
+    OptRange(Bound<usize>, Bound<usize>, bool),
     Rel(char, u128),
     Secs(Duration),
     SignedSecs(char, Duration),
@@ -162,7 +168,16 @@ fn check_arg(spec: &ArgSpec, arg: &[u8]) -> Result<(), String> {
             Some(v) if v == *n => Ok(()),
             _ => Err(format!("expected integer {} got {:?}", n, String::from_utf8_lossy(arg))),
         },
-        ArgSpec::Range(lo, hi) => check_range(arg, *lo, *hi),
+        ArgSpec::Range(lo, hi) | ArgSpec::OptRange(lo, hi, false) => check_range(arg, *lo, *hi),
+        ArgSpec::RangeOrPos(lo, hi) | ArgSpec::OptRange(lo, hi, true) => {
+            if !arg.contains(&b':') {
+                if let Some(n) = parse_dec(arg) {
+                    // the single position N is the range N:N+1
+                    return check_range(format!("{}:{}", n, n + 1).as_bytes(), *lo, *hi).map_err(|e| format!("single position {} ({})", n, e));
+                }
+            }
+            check_range(arg, *lo, *hi)
+        }
         ArgSpec::Rel(sign, n) => {
             if arg.first() == Some(&(*sign as u8)) && parse_dec(&arg[1..]) == Some(*n) {
                 Ok(())
@@ -286,8 +301,11 @@ pub fn all_cases(seed: u64) -> Vec<Case> {
         if !st.is_empty() {
             case!(o, "ListAllIn::directory", "listallinfo", vec![s(st)], b, move || c::ListAllIn::directory(st).command());
         }
-        case!(o, "Update::uri", "update", vec![s(st)], b, move || c::Update::new().uri(st).command());
-        case!(o, "Rescan::uri", "rescan", vec![s(st)], b, move || c::Rescan::new().uri(st).command());
+        // (MPD treats the empty path and `/` as the root of the library, for which the argument may also be omitted: not judged)
+        if !st.is_empty() && st != "/" {
+            case!(o, "Update::uri", "update", vec![s(st)], b, move || c::Update::new().uri(st).command());
+            case!(o, "Rescan::uri", "rescan", vec![s(st)], b, move || c::Rescan::new().uri(st).command());
+        }
         case!(o, "Add::uri", "addid", vec![s(st)], b, move || c::Add::uri(st).command());
         case!(o, "StickerList", "sticker", vec![s("list"), s("song"), s(st)], b, move || c::StickerList::new(st).command());
         case!(o, "LoadPlaylist::name", "load", vec![s(st)], b, move || c::LoadPlaylist::name(st).command());
@@ -334,7 +352,7 @@ pub fn all_cases(seed: u64) -> Vec<Case> {
         case!(o, "Play::song(Position)", "play", vec![Int(n as u128)], b, move || c::Play::song(SongPosition(n)).command());
         case!(o, "Play::song(Id)", "playid", vec![Int(id as u128)], b, move || c::Play::song(SongId(id)).command());
         case!(o, "Delete::id", "deleteid", vec![Int(id as u128)], b, move || c::Delete::id(SongId(id)).command());
-        case!(o, "Delete::position", "delete", vec![Range(Bound::Included(n), Bound::Included(n))], b, move || c::Delete::position(SongPosition(n)).command());
+        case!(o, "Delete::position", "delete", vec![RangeOrPos(Bound::Included(n), Bound::Included(n))], b, move || c::Delete::position(SongPosition(n)).command());
         case!(o, "SetBinaryLimit", "binarylimit", vec![Int(n as u128)], b, move || c::SetBinaryLimit(n).command());
         case!(o, "AlbumArt::offset", "albumart", vec![s("a b.mp3"), Int(n as u128)], b, move || c::AlbumArt::new("a b.mp3").offset(n).command());
         case!(o, "AlbumArtEmbedded::offset", "readpicture", vec![s("a b.mp3"), Int(n as u128)], b, move || c::AlbumArtEmbedded::new("a b.mp3").offset(n).command());
@@ -352,9 +370,9 @@ pub fn all_cases(seed: u64) -> Vec<Case> {
             case!(o, "Move::id.to_position", "moveid", vec![Int(id as u128), Int(m as u128)], b, move || c::Move::id(SongId(id)).to_position(SongPosition(m)).command());
             case!(o, "Move::id.after_current", "moveid", vec![Int(id as u128), Rel('+', m as u128)], b, move || c::Move::id(SongId(id)).after_current(m).command());
             case!(o, "Move::id.before_current", "moveid", vec![Int(id as u128), Rel('-', m as u128)], b, move || c::Move::id(SongId(id)).before_current(m).command());
-            case!(o, "Move::position.to_position", "move", vec![Range(Bound::Included(n), Bound::Included(n)), Int(m as u128)], b, move || c::Move::position(SongPosition(n)).to_position(SongPosition(m)).command());
-            case!(o, "Move::position.after_current", "move", vec![Range(Bound::Included(n), Bound::Included(n)), Rel('+', m as u128)], b, move || c::Move::position(SongPosition(n)).after_current(m).command());
-            case!(o, "Move::position.before_current", "move", vec![Range(Bound::Included(n), Bound::Included(n)), Rel('-', m as u128)], b, move || c::Move::position(SongPosition(n)).before_current(m).command());
+            case!(o, "Move::position.to_position", "move", vec![RangeOrPos(Bound::Included(n), Bound::Included(n)), Int(m as u128)], b, move || c::Move::position(SongPosition(n)).to_position(SongPosition(m)).command());
+            case!(o, "Move::position.after_current", "move", vec![RangeOrPos(Bound::Included(n), Bound::Included(n)), Rel('+', m as u128)], b, move || c::Move::position(SongPosition(n)).after_current(m).command());
+            case!(o, "Move::position.before_current", "move", vec![RangeOrPos(Bound::Included(n), Bound::Included(n)), Rel('-', m as u128)], b, move || c::Move::position(SongPosition(n)).before_current(m).command());
             let _ = mid;
         }
     }
@@ -362,30 +380,30 @@ pub fn all_cases(seed: u64) -> Vec<Case> {
     for (lo, hi) in bounds_grid() {
         let b = true;
         let (plo, phi) = (pos_bound(lo), pos_bound(hi));
-        case!(o, "Queue::range", "playlistinfo", vec![Range(lo, hi)], b, move || c::Queue::range((plo, phi)).command());
-        case!(o, "QueueRange::range", "playlistinfo", vec![Range(lo, hi)], b, move || c::QueueRange::range((plo, phi)).command());
-        case!(o, "Shuffle::range", "shuffle", vec![Range(lo, hi)], b, move || c::Shuffle::range((plo, phi)).command());
-        case!(o, "Delete::range", "delete", vec![Range(lo, hi)], b, move || c::Delete::range((plo, phi)).command());
-        case!(o, "RemoveFromPlaylist::range", "playlistdelete", vec![s("p l"), Range(lo, hi)], b, move || c::RemoveFromPlaylist::range("p l", (plo, phi)).command());
-        case!(o, "LoadPlaylist::range", "load", vec![s("p l"), Range(lo, hi)], b, move || c::LoadPlaylist::name("p l").range((lo, hi)).command());
+        case!(o, "Queue::range", "playlistinfo", vec![OptRange(lo, hi, true)], b, move || c::Queue::range((plo, phi)).command());
+        case!(o, "QueueRange::range", "playlistinfo", vec![OptRange(lo, hi, true)], b, move || c::QueueRange::range((plo, phi)).command());
+        case!(o, "Shuffle::range", "shuffle", vec![OptRange(lo, hi, false)], b, move || c::Shuffle::range((plo, phi)).command());
+        case!(o, "Delete::range", "delete", vec![RangeOrPos(lo, hi)], b, move || c::Delete::range((plo, phi)).command());
+        case!(o, "RemoveFromPlaylist::range", "playlistdelete", vec![s("p l"), RangeOrPos(lo, hi)], b, move || c::RemoveFromPlaylist::range("p l", (plo, phi)).command());
+        case!(o, "LoadPlaylist::range", "load", vec![s("p l"), OptRange(lo, hi, false)], b, move || c::LoadPlaylist::name("p l").range((lo, hi)).command());
         let plan = Plan::TagEq(0, "x y".into());
         let (f, t) = plan.build(&tags);
         let f2 = f.clone();
-        case!(o, "Find::window", "find", vec![Filter(t.clone()), s("window"), Range(lo, hi)], b, move || c::Find::new(f.clone()).window((lo, hi)).command());
-        case!(o, "Find::sort.window", "find", vec![Filter(t.clone()), s("sort"), TagName("Title".into()), s("window"), Range(lo, hi)], b, move || c::Find::new(f2.clone()).sort(Tag::Title).window((lo, hi)).command());
+        case!(o, "Find::window", "find", vec![Filter(t.clone()), s("window"), OptRange(lo, hi, false)], b, move || c::Find::new(f.clone()).window((lo, hi)).command());
+        case!(o, "Find::sort.window", "find", vec![Filter(t.clone()), s("sort"), TagName("Title".into()), s("window"), OptRange(lo, hi, false)], b, move || c::Find::new(f2.clone()).sort(Tag::Title).window((lo, hi)).command());
         if hi != Bound::Unbounded {
-            case!(o, "Move::range.to_position", "move", vec![Range(lo, hi), Int(7)], b, move || c::Move::range((plo, phi)).to_position(SongPosition(7)).command());
-            case!(o, "Move::range.after_current", "move", vec![Range(lo, hi), Rel('+', 0)], b, move || c::Move::range((plo, phi)).after_current(0).command());
-            case!(o, "Move::range.before_current", "move", vec![Range(lo, hi), Rel('-', usize::MAX as u128)], b, move || c::Move::range((plo, phi)).before_current(usize::MAX).command());
+            case!(o, "Move::range.to_position", "move", vec![RangeOrPos(lo, hi), Int(7)], b, move || c::Move::range((plo, phi)).to_position(SongPosition(7)).command());
+            case!(o, "Move::range.after_current", "move", vec![RangeOrPos(lo, hi), Rel('+', 0)], b, move || c::Move::range((plo, phi)).after_current(0).command());
+            case!(o, "Move::range.before_current", "move", vec![RangeOrPos(lo, hi), Rel('-', usize::MAX as u128)], b, move || c::Move::range((plo, phi)).before_current(usize::MAX).command());
         }
     }
     // native Rust range syntaxes (RangeBounds impls other than the tuple)
-    case!(o, "Queue::range(a..b)", "playlistinfo", vec![Range(Bound::Included(3), Bound::Excluded(18))], false, || c::Queue::range(SongPosition(3)..SongPosition(18)).command());
-    case!(o, "Queue::range(a..=b)", "playlistinfo", vec![Range(Bound::Included(3), Bound::Included(18))], false, || c::Queue::range(SongPosition(3)..=SongPosition(18)).command());
-    case!(o, "Queue::range(a..)", "playlistinfo", vec![Range(Bound::Included(3), Bound::Unbounded)], false, || c::Queue::range(SongPosition(3)..).command());
-    case!(o, "Queue::range(..b)", "playlistinfo", vec![Range(Bound::Unbounded, Bound::Excluded(18))], false, || c::Queue::range(..SongPosition(18)).command());
-    case!(o, "Queue::range(..=MAX)", "playlistinfo", vec![Range(Bound::Unbounded, Bound::Included(usize::MAX))], true, || c::Queue::range(..=SongPosition(usize::MAX)).command());
-    case!(o, "Queue::range(..)", "playlistinfo", vec![Range(Bound::Unbounded, Bound::Unbounded)], false, || c::Queue::range(..).command());
+    case!(o, "Queue::range(a..b)", "playlistinfo", vec![OptRange(Bound::Included(3), Bound::Excluded(18), true)], false, || c::Queue::range(SongPosition(3)..SongPosition(18)).command());
+    case!(o, "Queue::range(a..=b)", "playlistinfo", vec![OptRange(Bound::Included(3), Bound::Included(18), true)], false, || c::Queue::range(SongPosition(3)..=SongPosition(18)).command());
+    case!(o, "Queue::range(a..)", "playlistinfo", vec![OptRange(Bound::Included(3), Bound::Unbounded, true)], false, || c::Queue::range(SongPosition(3)..).command());
+    case!(o, "Queue::range(..b)", "playlistinfo", vec![OptRange(Bound::Unbounded, Bound::Excluded(18), true)], false, || c::Queue::range(..SongPosition(18)).command());
+    case!(o, "Queue::range(..=MAX)", "playlistinfo", vec![OptRange(Bound::Unbounded, Bound::Included(usize::MAX), true)], true, || c::Queue::range(..=SongPosition(usize::MAX)).command());
+    case!(o, "Queue::range(..)", "playlistinfo", vec![OptRange(Bound::Unbounded, Bound::Unbounded, true)], false, || c::Queue::range(..).command());
     case!(o, "Find::window(a..b)", "find", vec![Filter(Plan::Exists(2).build(&tags).1), s("window"), Range(Bound::Included(0), Bound::Excluded(50))], false, {
         let f = Plan::Exists(2).build(&tags).0;
         move || c::Find::new(f.clone()).window(0..50).command()
@@ -508,12 +526,25 @@ impl Property for C15 {
                 fail(acc, format!("command word {:?}, documented {:?}", String::from_utf8_lossy(&name), case.word));
                 continue;
             }
-            if args.len() != case.args.len() {
+            // an optional trailing range that selects everything may be left out (together with the `window` keyword)
+            let mut want: &[ArgSpec] = &case.args;
+            if args.len() < want.len() {
+                if let Some(ArgSpec::OptRange(lo, hi, _)) = want.last() {
+                    let everything = matches!(lo, Bound::Unbounded | Bound::Included(0)) && matches!(hi, Bound::Unbounded);
+                    if everything {
+                        want = &want[..want.len() - 1];
+                        if matches!(want.last(), Some(ArgSpec::Str(w)) if w == "window") && args.len() < want.len() {
+                            want = &want[..want.len() - 1];
+                        }
+                    }
+                }
+            }
+            if args.len() != want.len() {
                 fail(acc, format!("{} arguments, documented {}", args.len(), case.args.len()));
                 continue;
             }
             let mut ok = true;
-            for (spec, a) in case.args.iter().zip(args.iter()) {
+            for (spec, a) in want.iter().zip(args.iter()) {
                 if let Err(e) = check_arg(spec, a) {
                     fail(acc, e);
                     ok = false;
